@@ -33,3 +33,24 @@ Theorem C11_flush_conserves : forall s outs, runs_valid s ->
   conserve s (fst (clean_exit s outs)).
 Proof. intros s outs V. exact (proj1 (clean_exit_conserve s outs V)). Qed.
 Print Assumptions C11_flush_conserves.
+
+From Verif Require Import ProcInv4 ProcInv7.
+
+(* The final flush is complete: in every reachable state, for EVERY entry (r -> a) of the run table whose
+   application is not past its inactivity time-out, the final requests made under run id r
+   (`final_for r`: the requests of the flush's output with that run id) are harvest requests and carry
+   exactly the data of a's harvest, minus the packages already reported for the application (`seen_part`),
+   each unit with its multiplicity -- once, when tags are distinct -- whatever the outcomes of the final
+   requests; afterwards the harvest is empty.  (The run table is iterated in list order here; Go iterates
+   the map in an unspecified order.  The statement is per run and does not depend on the order.) *)
+Theorem C11_flush_complete : forall ops outs r a,
+  let s := fst (run ops) in
+  lookupN r (p_runs s) = Some a ->
+  inactive (get_obj s (ah_app (get_ah s a))) (p_now s) = false ->
+  let mine := final_for r (snd (clean_exit s outs)) in
+  (forall q, In q mine -> exists c, rq_kind q = RHarvest c) /\
+  (forall t, cnt t (req_tags mine) + cnt t (seen_part s (ah_app (get_ah s a)) (ah_h (get_ah s a))) =
+             cnt t (harvest_tags (ah_h (get_ah s a)))) /\
+  harvest_tags (ah_h (get_ah (fst (clean_exit s outs)) a)) = [].
+Proof. exact flush_complete. Qed.
+Print Assumptions C11_flush_complete.
